@@ -318,7 +318,7 @@ func (d *sliceDecoder) DecodePath(ctx *RuntimeContext, cursor, depth int64) ([][
 				return nil, 0, err
 			}
 			cursor += 4
-			return [][]byte{nullbytes}, cursor, nil
+			return nil, cursor, nil
 		case '[':
 			cursor++
 			cursor = skipWhiteSpace(buf, cursor)
